@@ -577,3 +577,337 @@ def ancestor_lookup(chk, c, rule):
                    'created lazily under a message with its own delimiters parses assigned text with the process-wide '
                    'defaults' % which, fi.loc, key='%s|%s|%s' % (rule, fi.qualname, which))
     chk.floor('ancestor look-ups of the encoding characters', n, 1)
+
+
+def definite_assignment(chk, c, rule, modules=None):
+    """No local variable is read on a CFG path on which it has not been bound (UnboundLocalError is a crash, not a library
+    exception).  Path-insensitive over the statement CFG with exceptional edges; names bound by an enclosing comprehension,
+    parameters, globals and nonlocals are not locals of the function."""
+    import ast
+    from ..cfg import cfg_of, ENTRY
+    from ..src import own_nodes
+    ix = c.index
+    COMP = (ast.ListComp, ast.SetComp, ast.DictComp, ast.GeneratorExp)
+    nfun = nuse = 0
+    for fq, fi in sorted(ix.functions.items()):
+        mn = fi.module.name
+        if mn.startswith('v2_') and not mn.endswith('base_datatypes'):
+            continue
+        if modules is not None and mn not in modules:
+            continue
+        nfun += 1
+        g = cfg_of(fi)
+        binders = {}
+
+        def add(name, node):
+            nid = g.node_for(node)
+            if nid:
+                binders.setdefault(name, set()).add(nid)
+
+        def comp_bound(n):
+            out = set()
+            p = getattr(n, '_parent', None)
+            while p is not None and p is not fi.node:
+                if isinstance(p, COMP):
+                    for gen in p.generators:
+                        out |= {x.id for x in ast.walk(gen.target) if isinstance(x, ast.Name)}
+                if isinstance(p, ast.Lambda):
+                    out |= {a.arg for a in p.args.args}
+                p = getattr(p, '_parent', None)
+            return out
+        for n in own_nodes(fi.node):
+            if isinstance(n, ast.Name) and isinstance(n.ctx, (ast.Store, ast.Del)) and n.id not in comp_bound(n):
+                add(n.id, n)
+            if isinstance(n, (ast.FunctionDef, ast.ClassDef)):
+                add(n.name, n)
+            if isinstance(n, ast.ExceptHandler) and n.name:
+                add(n.name, n)
+            if isinstance(n, (ast.Import, ast.ImportFrom)):
+                for a in n.names:
+                    add((a.asname or a.name).split('.')[0], n)
+        params = set(fi.params) | set(fi.kwonly) | {fi.vararg, fi.kwarg}
+        glob = {x for n in own_nodes(fi.node) if isinstance(n, (ast.Global, ast.Nonlocal)) for x in n.names}
+        reach_cache = {}
+        for n in own_nodes(fi.node):
+            if not (isinstance(n, ast.Name) and isinstance(n.ctx, ast.Load) and n.id in binders):
+                continue
+            if n.id in params or n.id in glob or n.id in comp_bound(n):
+                continue
+            nid = g.node_for(n)
+            if nid is None:
+                continue
+            nuse += 1
+            if n.id not in reach_cache:
+                reach_cache[n.id] = g.reach(ENTRY, avoid=binders[n.id])
+            reach = reach_cache[n.id]
+            bad = nid in reach or (nid in binders[n.id] and any(p_ in reach or p_ == ENTRY for p_, _ in g.pred[nid]))
+            if bad:
+                chk.fail(rule, '%s: `%s` is bound before it is read' % (fq, n.id),
+                         'line %d reads the local `%s` on a path on which no assignment to it was executed: UnboundLocalError '
+                         'instead of a result or a library exception' % (n.lineno, n.id), '%s:%d' % (fi.module.relpath, n.lineno),
+                         key='%s|%s|%s' % (rule, fq, n.id))
+    chk.ok(rule, 'reads of locals checked: %d in %d functions' % (nuse, nfun), '', key='%s|scan' % rule)
+    chk.floor('reads of local variables checked for definite assignment', nuse, 400)
+
+
+def call_protocol(chk, c, rule):
+    """Three contradictions between a definition and its uses that make an API operation fail with a TypeError / return
+    nothing, whatever the input:
+      (a) `super(C)` with one argument used to reach a method (the unbound form has no instance: TypeError);
+      (b) a function whose result is unpacked into k names by a caller returns something that is not a k-tuple on some path;
+      (c) a class defines the accessor pair `_get_X` / `_set_X` but binds no property X to it, while its base classes bind X
+          to their own pair (the subclass accessors are dead and the attribute silently behaves like the parent's)."""
+    import ast
+    from ..src import own_nodes, norm
+    ix, te, cg = c.index, c.te, c.cg
+    n = 0
+    for fq, fi in sorted(ix.functions.items()):
+        if fi.module.name.startswith('v2_') and not fi.module.name.endswith('base_datatypes'):
+            continue
+        for x in own_nodes(fi.node):
+            if isinstance(x, ast.Call) and isinstance(x.func, ast.Name) and x.func.id == 'super' and len(x.args) == 1 and \
+                    isinstance(getattr(x, '_parent', None), ast.Attribute):
+                n += 1
+                chk.fail(rule, '%s: `%s`' % (fq, norm(x._parent)[:50]),
+                         'one-argument super() is unbound: `.%s` cannot be reached through it, the call raises TypeError' %
+                         x._parent.attr, '%s:%d' % (fi.module.relpath, x.lineno), key='%s|super|%s' % (rule, fq))
+    # (b) tuple arity
+    for fq, sites in sorted(cg.sites.items()):
+        fi = ix.functions.get(fq)
+        if fi is None:
+            continue
+        for s in sites:
+            if s.kind != 'call':
+                continue
+            par = getattr(s.node, '_parent', None)
+            if not (isinstance(par, ast.Assign) and par.value is s.node and isinstance(par.targets[0], ast.Tuple)):
+                continue
+            k = len(par.targets[0].elts)
+            for t in s.targets:
+                if t.kind != 'func' or t.func.module.name.startswith('ext'):
+                    continue
+                rets = [r for r in own_nodes(t.func.node) if isinstance(r, ast.Return)]
+                for r in rets:
+                    n += 1
+                    v = r.value
+                    if v is None or (isinstance(v, ast.Constant) and v.value is None) or \
+                            (isinstance(v, ast.Tuple) and len(v.elts) != k):
+                        chk.fail(rule, '%s returns %d values to %s' % (t.func.qualname, k, fq),
+                                 '`%s` (line %d) does not return %d values although `%s` unpacks %d: TypeError / ValueError at '
+                                 'the call site' % (norm(r)[:40], r.lineno, k, norm(par)[:50], k),
+                                 '%s:%d' % (t.func.module.relpath, r.lineno), key='%s|arity|%s|%s' % (rule, t.func.qualname, norm(r)[:30]))
+    # (c) accessor pairs without a property
+    for cq, ci in sorted(ix.classes.items()):
+        for name in sorted(ci.methods):
+            if not name.startswith('_get_'):
+                continue
+            attr = name[5:]
+            if '_set_' + attr not in ci.methods:
+                continue
+            n += 1
+            bound = ci.properties.get(attr) if hasattr(ci, 'properties') else None
+            inherited = any(attr in getattr(b, 'properties', {}) for b in ci.mro[1:])
+            if bound is None and inherited:
+                chk.fail(rule, '%s binds %s to its own accessors' % (cq, attr),
+                         'the class defines _get_%s/_set_%s but no `%s = property(...)`: the accessors are dead code and `.%s` '
+                         'behaves like the base class' % (attr, attr, attr, attr), ci.methods[name].loc,
+                         key='%s|property|%s|%s' % (rule, cq, attr))
+    chk.ok(rule, 'definition/use protocol instances examined: %d' % n, '', key='%s|scan' % rule)
+    chk.floor('definition/use protocol instances', n, 20)
+
+
+def producers_return(chk, c, rule, which='resolvers'):
+    """Functions whose only purpose is their result never return None silently:
+      - resolvers `f(p, ..)` (a module-level function that returns its own parameter p on one path): every other return is the
+        result of a call (get_default_*()), never None or nothing -- otherwise an omitted argument stays None downstream;
+      - property getters of Element classes named _get_value / value: every return carries a value."""
+    import ast
+    from ..src import own_nodes, norm
+    ix = c.index
+    n = 0
+    for fq, fi in sorted(ix.functions.items()) if which == 'resolvers' else ():
+        if fi.cls is not None or fi.outer is not None or fi.module.name not in ('parser', 'core', '__init__', 'factories'):
+            continue
+        params = fi.params
+        rets = [r for r in own_nodes(fi.node) if isinstance(r, ast.Return)]
+        if not params or len(rets) < 2:
+            continue
+        own = [r for r in rets if r.value is not None and isinstance(r.value, ast.Name) and r.value.id == params[0]]
+        tests_none = any(isinstance(t, ast.Compare) and norm(t) in ('%s is None' % params[0], '%s is not None' % params[0])
+                         for t in ast.walk(fi.node))
+        if not own or not tests_none:
+            continue
+        for r in rets:
+            if r in own:
+                continue
+            n += 1
+            v = r.value
+            ok = v is not None and not (isinstance(v, ast.Constant) and v.value is None) and isinstance(v, ast.Call)
+            chk.ob(rule, '%s resolves a missing `%s`' % (fq, params[0]), ok,
+                   '`%s` (line %d): on the path where `%s` is None the resolver returns %s instead of the default: the caller keeps '
+                   'working with None' % (norm(r)[:40], r.lineno, params[0], 'None' if not ok else ''),
+                   '%s:%d' % (fi.module.relpath, r.lineno), key='%s|resolver|%s' % (rule, fq))
+    elem = ix.cls('core.Element')
+    for ci in ix.subclasses(elem) if which == 'getters' else ():
+        for name in ('_get_value',):
+            fi = ci.methods.get(name)
+            if fi is None:
+                continue
+            rets = [r for r in own_nodes(fi.node) if isinstance(r, ast.Return)]
+            n += 1
+            bad = [r for r in rets if r.value is None or (isinstance(r.value, ast.Constant) and r.value.value is None)]
+            chk.ob(rule, '%s returns the value on every path' % fi.qualname, bool(rets) and not bad,
+                   'the getter returns None%s: reading `.value` yields nothing although the element encodes to text' %
+                   (' at line %d' % bad[0].lineno if bad else ' (no return statement)'), fi.loc, key='%s|getter|%s' % (rule, fi.qualname))
+    chk.floor('resolver returns / value getters examined (%s)' % which, n, 3)
+
+
+def dynamic_parser_handoff(chk, c, rule, params=('version', 'validation_level', 'encoding_chars')):
+    """The element classes reach their child parsers through `getattr(module, self.child_parser[i])(text, **kwargs)`, which no
+    call graph resolves.  This lemma resolves it from the class constants: for every class with a `child_parser` pair and both
+    hand-off methods (parse_child -> pair[0], parse_children -> pair[1]), the keyword dictionary that reaches the parser --
+    the keys set along the chain of parse_child(ren) overrides up to the base method -- contains every context parameter the
+    parser takes, bound to the element's own value (self.<param>)."""
+    import ast
+    from ..src import own_nodes, norm
+    ix = c.index
+    parser = ix.module('parser')
+    n = 0
+
+    def keys_set(fi):
+        """{key: value expr} stored into the dict that the function passes on as **kwargs"""
+        out = {}
+        star = set()
+        for x in own_nodes(fi.node):
+            if isinstance(x, ast.Call):
+                for k in x.keywords:
+                    if k.arg is None and isinstance(k.value, ast.Name):
+                        star.add(k.value.id)
+                    elif k.arg is not None and isinstance(x.func, ast.Attribute) and x.func.attr in ('parse_child', 'parse_children'):
+                        out[k.arg] = k.value
+        for x in own_nodes(fi.node):
+            if isinstance(x, ast.Assign) and len(x.targets) == 1:
+                t = x.targets[0]
+                if isinstance(t, ast.Name) and t.id in star and isinstance(x.value, ast.Dict):
+                    for k, v in zip(x.value.keys, x.value.values):
+                        if isinstance(k, ast.Constant):
+                            out[k.value] = v
+                if isinstance(t, ast.Subscript) and isinstance(t.value, ast.Name) and t.value.id in star and \
+                        isinstance(t.slice, ast.Constant):
+                    out[t.slice.value] = x.value
+        return out
+    for cq, ci in sorted(ix.classes.items()):
+        cp = ci.attrs.get('child_parser') if hasattr(ci, 'attrs') else None
+        if not (isinstance(cp, ast.Tuple) and len(cp.elts) == 2 and all(isinstance(e, ast.Constant) for e in cp.elts)):
+            continue
+        for idx, meth in ((0, 'parse_child'), (1, 'parse_children')):
+            target = parser.functions.get(cp.elts[idx].value)
+            if target is None:
+                raise AnalysisError('%s.child_parser names %r, which parser.py does not define' % (cq, cp.elts[idx].value))
+            chain = []
+            for k in ci.mro:
+                if meth in k.methods:
+                    chain.append(k.methods[meth])
+            if not chain:
+                continue
+            have = {}
+            for fi in chain:
+                for k_, v_ in keys_set(fi).items():
+                    have.setdefault(k_, (fi, v_))
+            for P in params:
+                if P not in target.params:
+                    continue
+                n += 1
+                construct = '%s.%s -> parser.%s(%s=)' % (cq, meth, target.name, P)
+                if P not in have:
+                    chk.fail(rule, construct,
+                             'no method of the chain %s puts `%s` into the keyword dictionary handed to the parser: the child text is '
+                             'parsed with the process-wide default' % ([f.qualname for f in chain], P), chain[0].loc,
+                             key='%s|%s|%s|%s' % (rule, cq, meth, P))
+                    continue
+                fi, v = have[P]
+                ok = norm(v) in ('self.%s' % P, P)
+                chk.ob(rule, construct, ok, '`%s` is passed for %s, not the element\'s own `self.%s`' % (norm(v)[:40], P, P),
+                       '%s:%d' % (fi.module.relpath, v.lineno), key='%s|%s|%s|%s' % (rule, cq, meth, P))
+            # the datatype of the child comes from slot 2 of its reference (sibling agreement of the parse_child overrides)
+            if meth == 'parse_child' and 'datatype' in target.params:
+                for fi in chain:
+                    if 'reference' in fi.params and fi.cls is not None and fi.cls is not ix.cls('core.Element'):
+                        n += 1
+                        ks = keys_set(fi)
+                        v = ks.get('datatype')
+                        ok = v is not None and norm(v) == 'reference[2]'
+                        chk.ob(rule, '%s hands the child its datatype (reference[2])' % fi.qualname, ok,
+                               'datatype is %s: the child is parsed with the default datatype ST instead of the one its structure '
+                               'gives' % ('`%s`' % norm(v) if v is not None else 'not passed'), fi.loc,
+                               key='%s|%s|datatype' % (rule, fi.qualname))
+    chk.floor('context keys handed to dynamically resolved parsers', n, 20)
+
+
+def none_dereference(chk, c, rule):
+    """Contradiction rule (Engler et al.): a branch that has just established `x is None` (or took the false edge of
+    `x is not None`) must not subscript x or read an attribute of it before x is assigned again -- that is a TypeError /
+    AttributeError for every input that reaches the branch."""
+    import ast
+    from ..cfg import cfg_of, edge_implies
+    from ..src import own_nodes, norm
+    ix = c.index
+    ntests = 0
+    for fq, fi in sorted(ix.functions.items()):
+        mn = fi.module.name
+        if mn.startswith('v2_') and not mn.endswith('base_datatypes'):
+            continue
+        cands = set()
+        for t in ast.walk(fi.node):
+            if isinstance(t, ast.Compare) and len(t.ops) == 1 and isinstance(t.ops[0], (ast.Is, ast.IsNot)) and \
+                    isinstance(t.left, ast.Name) and isinstance(t.comparators[0], ast.Constant) and t.comparators[0].value is None:
+                cands.add(t.left.id)
+        if not cands:
+            continue
+        g = cfg_of(fi)
+        for x in sorted(cands):
+            pos, neg = ('%s is None' % x,), ('%s is not None' % x, x)
+            binds = {g.node_for(n) for n in own_nodes(fi.node)
+                     if isinstance(n, ast.Name) and n.id == x and isinstance(n.ctx, (ast.Store, ast.Del))}
+            for nid, nd in g.nodes.items():
+                if nd.kind != 'test':
+                    continue
+                for d, lab in g.succ[nid]:
+                    if not edge_implies(nd.ast, lab, pos, neg):
+                        continue
+                    ntests += 1
+                    # walk from d while x stays None: stop at rebinding and at tests that re-establish non-None
+                    seen = set()
+                    work = [d]
+                    while work:
+                        k = work.pop()
+                        if k in seen or k in binds and k != d:
+                            continue
+                        seen.add(k)
+                        kn = g.nodes.get(k)
+                        if kn is not None and kn.ast is not None and kn.kind in ('stmt', 'test'):
+                            scope = kn.ast
+                            for u in ast.walk(scope):
+                                if isinstance(u, (ast.Subscript, ast.Attribute)) and isinstance(u.value, ast.Name) and \
+                                        u.value.id == x and isinstance(getattr(u.value, 'ctx', None), ast.Load):
+                                    # short-circuit protection inside the same expression (`x is not None and x[0]`) is not modelled:
+                                    # only flag plain statements and tests that do not mention the None test themselves
+                                    if ('%s is not None' % x) in norm(scope) or ('%s is None' % x) in norm(scope):
+                                        continue
+                                    chk.fail(rule, '%s: `%s` after `%s` was found to be None' % (fq, norm(u)[:40], x),
+                                             'line %d dereferences `%s` on the branch taken when `%s is None` (test at line %d)' %
+                                             (u.lineno, x, x, getattr(nd.ast, 'lineno', 0)),
+                                             '%s:%d' % (fi.module.relpath, u.lineno), key='%s|%s|%s' % (rule, fq, norm(u)[:40]))
+                                    work = []
+                                    break
+                        if k in binds:
+                            continue
+                        for d2, lab2 in g.succ.get(k, ()):
+                            if lab2 == 'exc':
+                                continue
+                            kn2 = g.nodes.get(k)
+                            if kn2 is not None and kn2.kind == 'test' and edge_implies(kn2.ast, lab2, neg[:1], pos):
+                                continue       # an edge that proves x is not None
+                            work.append(d2)
+    chk.ok(rule, 'branches that establish `x is None`: %d' % ntests, '', key='%s|scan' % rule)
+    chk.floor('None-establishing branches examined', ntests, 40)
